@@ -620,8 +620,38 @@ class Program:
             self._callers = g
         return self._callers
 
-    def reachable(self, roots, stop=None):
-        g = self.call_graph()
+    def precise_call_graph(self):
+        """Like call_graph, but a call the compiler resolved to one impl method has that method as its only target; the fan-out
+        from a trait item to all of its impls is kept for calls that stayed unresolved (generic / dyn dispatch)."""
+        g = getattr(self, "_precise_cg", None)
+        if g is None:
+            g = {}
+            impls_of_item = defaultdict(set)
+            for p, b in self.bodies.items():
+                ti = b.fact.get("trait_item")
+                if ti:
+                    impls_of_item[ti].add(p)
+            for p, b in self.bodies.items():
+                cs = set()
+                for n in b.nodes:
+                    if n["k"] in ("Call", "MCall"):
+                        r, c = n.get("resolved"), n.get("callee")
+                        if r and r != c:
+                            cs.add(r)
+                        else:
+                            for x in (r, c):
+                                if x:
+                                    cs.add(x)
+                                    cs |= impls_of_item.get(x, set())
+                    elif n["k"] == "Path" and n.get("dk") in ("Fn", "AssocFn"):
+                        cs.add(n["def"])
+                        cs |= impls_of_item.get(n["def"], set())
+                g[p] = cs
+            self._precise_cg = g
+        return g
+
+    def reachable(self, roots, stop=None, precise=False):
+        g = self.precise_call_graph() if precise else self.call_graph()
         seen = set()
         stack = list(roots)
         while stack:
